@@ -273,6 +273,12 @@ from . import vocab
 
 from . import inventory
 
+
+def _c03_o16(W, ob):
+    from . import c03 as _m
+    return _m.o16(W, ob)
+
+
 OBLIGATIONS = [
     ('C05.O1', 'every accepted input packet is acknowledged', 'From the end of the shape checks every path to a normal return '
      'that is not a decoder rejection passes through send_input_ack -- including the path on which the decode reference is '
@@ -288,6 +294,7 @@ OBLIGATIONS = [
     ('C05.O5', 'handshake retry and first packet', 'matched replies continue the handshake, synchronize() starts it, requests are '
      'always answered, recv_inputs is seeded with the NULL_FRAME reference.', o5),
     ('C05.O6', 'prune window covers the ack', 'the recv_inputs prune keeps the newest received frame for every window size.', o6),
+    ('C05.O9', 'every field of every wire struct travels (= C03.O16)', 'the piggy-backed ack_frame, the start frame and the connection statuses are fields of the Input message: see C03.O16', _c03_o16),
     ('C05.H', 'helpers the rules above rely on', 'the bodies of the helpers named by this property\'s rules compute what the rules assume (last_recv_frame, protocol_state_tests); see rules/helpers.py', helpers.bundle('last_recv_frame', 'protocol_state_tests')),
     ('C05.W', 'configuration wiring', 'at every call site that passes a field read `x.B` for a parameter `A` the callee has no same-typed parameter `B`; in every struct literal no parameter `B` is stored in field `A` while a same-typed parameter `A` / field `B` exists (builder -> constructor -> endpoint fields: timeouts, window, fps are not crossed); see rules/wiring.py', wiring.rule),
     ('C05.O7', 'a spectator catching up after an outage consumes one frame per fetched frame (= C02.O8)', 'host->spectator links are part of this property: after a burst the spectator catches up several frames per call; each AdvanceFrame it emits carries the inputs of the next frame and the frame counter moves by exactly one per fetched frame, after the fetch succeeded. See C02.O8 / C01.O3.', c02.o8),
@@ -298,4 +305,5 @@ OBLIGATIONS = [
     ('C05.V', 'no unreviewed condition in the pinned helpers', 'for each helper whose body this property\'s rules pin (tables/condition_terms.json), the terms its path conditions are built from (fields, parameters, call results -- no constants, operators or local names) are a subset of the reviewed vocabulary: one more `if` in front of a pinned result (a lock that may time out, "only while an endpoint is running") is reported; see rules/vocab.py', vocab.rule_for('C05')),
     ('C05.S', 'state inventory', 'every field of the structs this property\'s rules read (tables/state.json) is known, and is written only by its reviewed writers (or helpers only they call): a new field is new state across calls -- a cache, a flag, a stored deadline -- that nothing has shown to stay in step; a new writer is a second place that resets, re-arms or moves something; see rules/inventory.py', inventory.state_rule_for('C05')),
     ('C05.K', 'call inventory', 'every reviewed call of a function that writes state (tables/call_edges.json, callers in the structs this property\'s rules read) is still made, directly or through helpers: a call deleted as redundant is reported; see rules/inventory.py', inventory.call_rule_for('C05')),
+    ('C05.A', 'expression inventory', 'every arithmetic expression handed to a call or stored in a field, and what every closure given to an iterator adaptor / collection method returns, is one of the reviewed expressions of its function (tables/expressions.json; linear / guard normal forms, no local names): a changed literal, operator, operand order, factor, predicate or sort key is reported; see rules/inventory.py', inventory.expr_rule_for('C05')),
 ]
